@@ -4,8 +4,9 @@
 (* a bag the real decoder must read back as the same map.                       *)
 EXTENDS Dict_Pool
 AllForms == {<<a, b, c>> : a \in {"short", "long", "same"}, b \in {"short", "long", "same"}, c \in {"short", "long", "same"}}
-\* the quick instance (MaxSet <= 3) uses the three uniform assignments and two mixed ones; the full instance all 27
-FormSeqs == IF MaxSet <= 3 THEN {<<"short","short","short">>, <<"long","long","long">>, <<"same","same","same">>,
+\* the quick instance uses the three uniform assignments and two mixed ones; the full instance (FormsAll) all 27
+CONSTANT FormsAll
+FormSeqs == IF ~FormsAll THEN {<<"short","short","short">>, <<"long","long","long">>, <<"same","same","same">>,
                                  <<"short","long","same">>, <<"same","short","long">>}
             ELSE AllForms
 VARIABLES fty, fset, fforms, fout
